@@ -102,3 +102,8 @@ add("C11", "c11", "exploration", 2000, 60000, module="harness26", toolchain="go1
     assumptions=["in-memory fake world of registries and token servers (harness26/authworld); secrets are unique strings searched in every outgoing request (also base64- and URL-decoded)",
                  "a destination counts as 'named by the registry' when its host appears in a challenge header that registry has already sent",
                  "redirecting token realms (3xx with Location) are outside the stated fault set"])
+
+add("C08", "c08", "exploration", 40, 1500, race=True, qshards=8, tshards=16, qtimeout=900, ttimeout=3400,
+    assumptions=["the Go scheduler is not under the harness's control: interleavings are sampled by running many generated workloads and directed racing loops under the race detector; a failing history is saved verbatim because re-execution need not reproduce it",
+                 "linearizability is decided by porcupine against internal/model (the C02 reference model); checks that exceed 4 s are counted as inconclusive, never as violations",
+                 "over HTTP only the race detector and the content/digest invariant are in force"])
